@@ -47,7 +47,15 @@ def main(argv=None):
     from sim.env import ensure_env
     ensure_env("checks.c05")
     from sim import batch, oracle
-    return batch.main("C05", oracle.judge_c05, make, sizes, DESCRIBE, argv)
+    try:
+        return batch.main("C05", oracle.judge_c05, make, sizes, DESCRIBE, argv)
+    except SystemExit:
+        raise
+    except BaseException as e:  # harness trouble is never a verdict: exit 2, not a traceback's exit 1
+        import traceback
+        traceback.print_exc()
+        print("HARNESS: %s: %s" % (type(e).__name__, e))
+        return 2
 
 
 if __name__ == "__main__":
